@@ -359,7 +359,8 @@ def webhook_concrete(host, configured_host, bad):
     else:
         ident = bad['full_name'] == 'owner/slug'
     want = auth and ident and handled(host, bad['event'], bad['inprogress'])
-    return (len(jobs) == 1) != bool(want) or (not auth and status != 401)
+    return (len(jobs) == 1) != bool(want) or (not auth and status != 401) or \
+        (auth and not ident and status < 400)
 
 
 def replay(data):
